@@ -538,7 +538,7 @@ Proof.
     - destruct (u_step s t u b) as [[s1 ou]|] eqn:EU; [|discriminate]. inv H.
       pose proof (u_step_inv _ s t u b s1 ou (emb_cls (k_prev k) (k_rest k)) I) as P.
       core. apply P; auto. rewrite ET. f_equal. f_equal. destruct k; cbn in *. congruence.
-    - destruct (k_rest k); inv H; core;
+    - destruct (k_rest k); [|destruct b]; inv H; core;
         (apply plain_update; [assumption|congruence|intros ? ?; rewrite ET; cbn; tauto
                              |intros ? ?; rewrite ET; cbn; rewrite EC; tauto|cbn; rewrite ?EC; auto]). }
   all: assert (NC : k_cur k = None) by (destruct (k_cur k); auto; destruct OK; congruence).
